@@ -268,7 +268,8 @@ def run(ctx, chk):
     else:
         chk.fail('C17.4', 'release-silent', 'release_button stores the interrupt latch', file, lat[0][2])
     # ---- rule 5
-    devs = [n for n in prog.fns if n.startswith('devices::') and n not in (IO_SET, IO_GET)]
+    iof = families(prog, [IO_SET, IO_GET])
+    devs = [n for n in prog.fns if n.startswith('devices::') and n not in iof]
     ipr = absint.Interp(facts, opaque=devs)
     for fn, target, extra in ((IO_SET, J + 'set_value', [S(8, 'v')]), (IO_GET, J + 'get_value', [])):
         st = ipr.new_state()
@@ -277,7 +278,12 @@ def run(ctx, chk):
         offs = set()
         for r in ipr.run(fn, [io, addr] + extra, st):
             if any(e[0] == 'call' and e[1] == target for e in r.state.events):
-                offs.add(r.state.env.const_of(O(16, 'and', addr, C(16, 0xff))))
+                lo_ = O(16, 'and', addr, C(16, 0xff))
+                ov = r.state.env.const_of(lo_)
+                if ov is None:
+                    from .. import bvproof as _bp2
+                    ov = _bp2.const_diff_under(lo_, C(16, 0), r.state.env, 16)
+                offs.add(ov)
         key = 'route:' + target.split('::')[-1]
         if offs == {0}:
             chk.ok('C17.5', key)
